@@ -1240,10 +1240,14 @@ static void gen_a64(Gen& g, bool thorough) {
         // k = 0 (default instantiation; must be accepted - harness self check)
         { Call c = a64_call(t, dflt, ""); c.expect_ok = true; emit1(c); }
         // k = 1
+        int alt = 0;
         for (size_t i = 0; i < t.fields.size(); i++) for (auto& v : alph[i]) {
           if (v.v == dflt[i]) continue;
           std::vector<int64_t> f = dflt; f[i] = v.v;
-          emit1(a64_call(t, f, v.must ? v.must : ""));
+          Call c = a64_call(t, f, v.must ? v.must : "");
+          // every other perturbed call carries one-shot state (inline comment, an option bit without meaning on AArch64)
+          if ((alt++ & 1) != 0) { c.comment = true; c.opt = uint32_t(InstOptions::kOverwrite); }
+          emit1(c);
         }
         // k = 2
         if (kmax >= 2) for (size_t i = 0; i < t.fields.size(); i++) for (size_t j = i + 1; j < t.fields.size(); j++) for (auto& v : alph[i]) for (auto& w : alph[j]) {
@@ -1575,7 +1579,7 @@ int main(int argc, char** argv) {
   if (!stop) run_batch(batch);
   if (g_par.acc_file) fclose(g_par.acc_file);
 
-  if (c.shard_i == 0) c.n("units_enumerated") = g.idx;
+  if (c.shard_i == 0) c.n("enumeration_slots") = g.idx;
   c.n("distinct_nontrivial") = c.n("failed_calls_checked") + c.n("accepted_distinct");
   c.n("states") = c.n("units");
   c.n("transitions") = c.n("evaluations");
